@@ -12,6 +12,7 @@ func Main() {
 	r := core.Start("C04", "exploration")
 	r.SetRule("case = random validator count/powers/adversary set (<1/3), adversarial prefix of 50..450 scheduler steps (random single deliveries, early timeouts, partitions, Byzantine messages), then a synchronous suffix (gossip to fixpoint, fire the earliest timeout) that must commit 3 further heights on every correct node within 20*n rounds per height; non-trivial = suffix completed after a prefix")
 	r.Assume("the simulator delivers to a node only through its real receive loop; gossip emulation offers what real reactors send (state-based, maj23 exchange), adversary < 1/3 of the power")
+	r.Cases("ticker", r.N(64, 2000), core.Opts{Workers: 16}, netsim.TickerCase)
 	r.Cases("scenario", netsim.NumScenarioCases(), core.Opts{Procs: 16, StallSec: 300}, func(c *core.Case) { netsim.ScenarioCase(c, "C04") })
 	r.Cases("attack", len(netsim.Attacks)*len(netsim.AttackCfgs()), core.Opts{Procs: 16, StallSec: 300}, func(c *core.Case) { netsim.AttackCase(c, "C04") })
 	r.Cases("random", r.N(400, 8000), core.Opts{Procs: 16, StallSec: 300}, func(c *core.Case) { netsim.RandomCase(c, "C04", 7, 400) })
